@@ -87,9 +87,15 @@ GARBAGE = [
     ("indefinite-length", lambda r: b"\x30\x80\x02\x01\x01\x00\x00"),
     ("bad-utf8", lambda r: _tlv(0x30, _tlv(2, b"\x01") + _tlv(0x77, _tlv(0x80, b"\xff\xfe")))),
     ("bad-enum", lambda r: _tlv(0x30, _tlv(2, b"\x01") + _tlv(0x63, _tlv(4, b"") + _tlv(10, b"\x09") + _tlv(10, b"\x00") + _tlv(2, b"\x00") + _tlv(2, b"\x00") + _tlv(1, b"\x00") + _tlv(0x87, b"cn") + _tlv(0x30, b"")))),
-    ("deep-not-nesting", lambda r: _deep_not(r.choice((40, 400, 1200, 3000)))),
     ("nested-unknown-filter", lambda r: _nested_bad_filter(r.choice((3, 40, 60)))),
     ("unknown-filter", lambda r: _tlv(0x30, _tlv(2, b"\x01") + _tlv(0x63, _tlv(4, b"") + _tlv(10, b"\x00") + _tlv(10, b"\x00") + _tlv(2, b"\x00") + _tlv(2, b"\x00") + _tlv(1, b"\x00") + _tlv(0x9F, b"cn") + _tlv(0x30, b"")))),
+]
+
+
+# well-formed BER that the decoder may or may not survive (nesting beyond the interpreter's recursion limit): the
+# outcome may be a message or a ProtocolError, so these are not "garbage" for the replay, only for the trace driver
+MAYBE = [
+    ("deep-not-nesting", lambda r: _deep_not(r.choice((40, 400, 1200, 3000)))),
 ]
 
 
